@@ -2,7 +2,9 @@
 from . import framework, gen_prog, wire
 
 PREDS = {'pos': ('(fn [x] (> x 1))', lambda x: x > 1), 'even': ('(fn [x] (= (mod x 2) 0))', lambda x: x % 2 == 0),
-         'all': ('(fn [x] #t)', lambda x: True), 'none': ('(fn [x] #f)', lambda x: False)}
+         'all': ('(fn [x] #t)', lambda x: True), 'none': ('(fn [x] #f)', lambda x: False),
+         'isint': ('(fn [x] (int? x))', lambda x: isinstance(x, int)), 'islist': ('(fn [x] (list? x))', lambda x: isinstance(x, list))}
+ANYPREDS = ['all', 'none', 'isint', 'islist']     # defined on every kind of element
 BINS = {'add': ('(fn [a x] (+ a x))', lambda a, x: a + x), 'sub': ('(fn [a x] (- a x))', lambda a, x: a - x),
         'cnt': ('(fn [a x] (+ a 1))', lambda a, x: a + 1), 'op+': ('+', lambda a, x: a + x), 'op*': ('*', lambda a, x: a * x)}
 MAPS = {'inc': ('(fn [x] (+ x 1))', lambda x: x + 1), 'sq': ('(fn [x] (* x x))', lambda x: x * x), 'neg': ('-', lambda x: -x)}
@@ -142,7 +144,11 @@ class C14(framework.PropertyCheck):
                 c['f'] = rng.choice(list(BINS))
                 c['acc'] = rng.choice([0, 1, 10])
             if op in ('filter', 'partition'):
-                c['f'] = rng.choice(list(PREDS))
+                c['f'] = rng.choice(['pos', 'even', 'all', 'none'])
+                if rng.random() < 0.4:
+                    # elements that are lists themselves (also empty ones) are elements like any other
+                    c['xs'] = self.gen_list(rng, 'nested')
+                    c['f'] = rng.choice(ANYPREDS)
             if op == 'range':
                 c['args'] = rng.choice([[rng.randint(-2, 6)], [rng.randint(-3, 3), rng.randint(-3, 8)],
                                         [rng.randint(-3, 8), rng.randint(-3, 8), rng.choice([1, 2, 3, -1, -2])]])
